@@ -183,4 +183,8 @@ class ScriptedPeer:
                 del self.buf[: len(c.raw)]
                 self.cmds.append(c)
             if self.replies:
-                sock.feed(self.replies.pop(0))
+                r = self.replies.pop(0)
+                if callable(r):
+                    # a reply computed from the command it answers (e.g. DIGEST-MD5 rspauth)
+                    r = r(self, c)
+                sock.feed(r)
